@@ -516,41 +516,69 @@ func main() {
 	fmt.Fprintf(&out, "def readerIncrementsIndex : Bool := %s\ndef readerChecksEofAfterFinal : Bool := %s\ndef readerRequiresEmptyFinal : Bool := %s\n\n",
 		leanBool(indexIncr), leanBool(eofOnFinal), leanBool(finalEmpty))
 
-	// ---- 5. Unpack staging order
-	unpackKinds := []string{}
-	if fn := p.funcs["Unpack"]; fn != nil && fn.Body != nil {
-		for _, s := range fn.Body.List {
-			kind := "other"
-			if as, ok := s.(*ast.AssignStmt); ok && len(as.Rhs) == 1 {
-				if c, ok := as.Rhs[0].(*ast.CallExpr); ok && exprString(c.Fun) == "createUnpackStagingDirectory" {
-					kind = "create-staging"
-				}
-			}
-			if _, ok := s.(*ast.DeferStmt); ok {
-				kind = "defer"
-				calls(s, func(c *ast.CallExpr, name string, selector bool) {
-					if selector && name == "RemoveAll" && len(c.Args) == 1 && exprString(c.Args[0]) == "stagingDir" {
-						kind = "defer-remove-staging"
+	// ---- 5. staging order of Unpack (encrypted) and of UnpackTarWithOptions (plain, since the F11 repair)
+	stagingKinds := func(fnName string, extractors map[string]bool) []string {
+		unpackKinds := []string{}
+		if fn := p.funcs[fnName]; fn != nil && fn.Body != nil {
+			for _, s := range fn.Body.List {
+				kind := "other"
+				if as, ok := s.(*ast.AssignStmt); ok && len(as.Rhs) == 1 {
+					if c, ok := as.Rhs[0].(*ast.CallExpr); ok && exprString(c.Fun) == "createUnpackStagingDirectory" {
+						kind = "create-staging"
 					}
-				})
-			}
-			if name, call := guardCall(s); call != nil {
-				switch name {
-				case "UnpackEncryptedCollectionArchiveWithOptions":
-					kind = "extract-elsewhere"
-					if len(call.Args) >= 2 && exprString(call.Args[1]) == "stagingDir" {
-						kind = "extract-into-staging"
-					}
-				case "promoteUnpackStagingDirectory":
-					kind = "promote"
-				case "validate":
-					kind = "validate-options"
 				}
+				if _, ok := s.(*ast.DeferStmt); ok {
+					kind = "defer"
+					calls(s, func(c *ast.CallExpr, name string, selector bool) {
+						if selector && name == "RemoveAll" && len(c.Args) == 1 && exprString(c.Args[0]) == "stagingDir" {
+							kind = "defer-remove-staging"
+						}
+					})
+				}
+				if name, call := guardCall(s); call != nil {
+					switch {
+					case extractors[name]:
+						kind = "extract-elsewhere"
+						if len(call.Args) >= 2 && exprString(call.Args[1]) == "stagingDir" {
+							kind = "extract-into-staging"
+						}
+					case name == "promoteUnpackStagingDirectory":
+						kind = "promote"
+					case name == "validate":
+						kind = "validate-options"
+					}
+				} else if kind == "other" {
+					// an extraction call that is not guarded by `if .. err != nil { return }` (the pre-repair shape
+					// `_, err := unpackTarWithOptions(reader, outputDir, ..)`) is an extraction elsewhere
+					calls(s, func(c *ast.CallExpr, name string, selector bool) {
+						if !selector && extractors[name] {
+							kind = "extract-elsewhere"
+						}
+					})
+				}
+				unpackKinds = append(unpackKinds, kind)
 			}
-			unpackKinds = append(unpackKinds, kind)
 		}
+		return unpackKinds
 	}
-	fmt.Fprintf(&out, "/-- top-level statements of `Unpack`, in order -/\ndef unpackKinds : List String := %s\n\nend Dawgs.Generated.C20\n", leanList(unpackKinds))
+	fmt.Fprintf(&out, "/-- top-level statements of `Unpack`, in order -/\ndef unpackKinds : List String := %s\n",
+		leanList(stagingKinds("Unpack", map[string]bool{"UnpackEncryptedCollectionArchiveWithOptions": true, "unpackEncryptedCollectionArchiveInto": true})))
+	fmt.Fprintf(&out, "/-- top-level statements of `UnpackTarWithOptions` (plain path), in order -/\ndef plainUnpackKinds : List String := %s\n",
+		leanList(stagingKinds("UnpackTarWithOptions", map[string]bool{"unpackTarWithOptions": true})))
+	// every caller of the extraction loop and the directory it hands to it
+	callers := []string{}
+	for name, fn := range p.funcs {
+		if strings.HasPrefix(name, ".") || fn.Body == nil {
+			continue
+		}
+		calls(fn.Body, func(c *ast.CallExpr, callee string, selector bool) {
+			if !selector && callee == "unpackTarWithOptions" && len(c.Args) >= 2 {
+				callers = append(callers, name+":"+exprString(c.Args[1]))
+			}
+		})
+	}
+	sort.Strings(callers)
+	fmt.Fprintf(&out, "/-- `caller:directory argument` of every call of the extraction loop `unpackTarWithOptions` -/\ndef extractLoopCallers : List String := %s\n\nend Dawgs.Generated.C20\n", leanList(callers))
 	if err := os.WriteFile(os.Args[2], []byte(out.String()), 0o644); err != nil {
 		fmt.Fprintln(os.Stderr, err)
 		os.Exit(1)
